@@ -7,12 +7,16 @@
    document with its answers. *)
 From Coq Require Import List ZArith NArith Bool Arith.
 Import ListNotations.
-Require Import Vault Row Table Grid Tableabs Tablexml Tablechk TableB TableBabs.
+Require Import Vault Row Table Grid Tableabs Tablexml Tablechk Transform TableB TableBspan TableBabs.
 Local Open Scope Z_scope.
 
 (* what a step of a history was: a step of the layer-B model | one of rstrip / optimize_width / transpose (TableBx: the private
    state afterwards is that of a fresh parse) | an operation outside the model *)
-Inductive cop := CModel (o : bop) | CXform | COpaque.
+Inductive cop := CModel (o : bop) | CXform | COpaque
+| CRowRstrip (y : Z)        (* get_row(y, clone=False).rstrip(): TableBx.b_live_rstrip — the wrapper's map recomputed, its cell cache dropped *)
+| CSetSpan (x y z t : Z) (ret : bool)     (* set_span((x, y, z, t)) that returned ret: TableBspan.b_set_span_given at the content found in the area afterwards *)
+| CDelSpan (x y nc nr : Z) (ret : bool)   (* del_span((x, y)) on a cell spanning nc x nr: TableBspan.b_del_span_given *)
+| CLiveCol (n : nat).       (* c = append_column(column); c.repeated = n: TableBx.b_live_column — both maps recomputed, caches kept *)
 Inductive cdump := CD (tm cm : list Z) (tc : list (nat * rwrap)) (cc : list (nat * Z)).
 Definition mkb (x : xtable) (d : cdump) : bstate :=
   let '(CD tm cm tc cc) := d in {| ax := to_tstate x; tmapB := tm; cmapB := cm; tcache := tc; ccache := cc |}.
@@ -101,6 +105,33 @@ Definition chk_c02 (vcl : Z -> Z) (ob : obs2) : nat :=
         match o with
         | COpaque => 0%nat
         | CXform => if bstate_eqb bpost (TableB.fresh (to_tstate post)) then 0%nat else 9%nat
+        | CRowRstrip y =>
+            let b0 := mkb pre pred in let tp := to_tstate post in
+            let yy := bny y b0 in
+            if bheight b0 <=? yy then (if bstate_eqb bpost (with_ax b0 tp) then 0%nat else 9%nat)
+            else match get_wrap yy b0 with
+                 | Some (i, w, b1) =>
+                     match nth_error (rows tp) (Z.to_nat (w_pos w)) with
+                     | Some (_, (_, cs')) =>
+                         let w' := {| w_pos := w_pos w; w_rmap := cmap cs'; w_cells := [] |} in
+                         if bstate_eqb bpost {| ax := tp; tmapB := tmapB b1; cmapB := cmapB b1; tcache := upsertn i w' (tcache b1); ccache := ccache b1 |}
+                         then 0%nat else 9%nat
+                     | None => 9%nat end
+                 | None => 9%nat end
+        | CSetSpan x y z t ret =>
+            match b_set_span_given x y z t ret (area_cells x y z t (to_tstate post)) (mkb pre pred) with
+            | Some b' => if bstate_eqb bpost b' then 0%nat else 9%nat
+            | None => 9%nat end
+        | CDelSpan x y nc nr ret =>
+            match b_del_span_given x y ret (area_read x y (x + nc - 1) (y + nr - 1) (to_tstate post)) (mkb pre pred) with
+            | Some b' => if bstate_eqb bpost b' then 0%nat else 9%nat
+            | None => 9%nat end
+        | CLiveCol n =>
+            let b0 := mkb pre pred in let tp := to_tstate post in
+            if bstate_eqb bpost {| ax := tp; tmapB := cmap (rows tp); cmapB := cmap (cols tp); tcache := tcache b0; ccache := ccache b0 |}
+               && (length (cols tp) =? S (length (cols (to_tstate pre))))%nat
+               && match rev (cols tp) with (k, _) :: _ => (k =? Nat.max 1 n)%nat | [] => false end
+            then 0%nat else 9%nat
         | CModel o =>
         let want := match o with
                     | BMut m => g_step (abs_t (to_tstate pre)) m
